@@ -830,6 +830,153 @@ func newReaderIndex(""")]),
 		return nil, 0, err
 	}
 """)]),
+ ("delete: reader list rebuilt through a local, head appended last", [("log.go", """		l.writer = newWriter
+		if newReader == nil {
+			l.readers[len(l.readers)-1] = newWriter.reader
+		} else {
+			l.readers[len(l.readers)-1] = newReader
+			l.readers = append(l.readers, newWriter.reader)
+		}""", """		l.writer = newWriter
+		closed := l.readers[:len(l.readers)-1]
+		if newReader != nil {
+			closed = append(closed, newReader)
+		}
+		l.readers = append(closed, newWriter.reader)""")]),
+ ("reader: a load counter that closeIndex resets", [("log_reader.go", """	indexLastAccess atomic.Int64
+}""", """	indexLastAccess atomic.Int64
+	indexUses       atomic.Int64
+}"""), ("log_reader.go", """func (r *reader) getIndexNow() (indexer, error) {
+	r.indexLastAccess.Store(time.Now().UnixMicro())""", """func (r *reader) getIndexNow() (indexer, error) {
+	r.indexUses.Add(1)
+	r.indexLastAccess.Store(time.Now().UnixMicro())"""), ("log_reader.go", """	r.index = nil
+}""", """	r.index = nil
+	r.indexUses.Store(0)
+}""")]),
+ ("forRewrite: constructor spelled out with the source's own settings", [("pkg/segment/segment.go", """		Segment: s.NewAt(s.Offset),""", """		Segment: New(s.Dir, s.Offset, s.AutoSync),""")]),
+ ("notify.Wait: probe and release folded into two branches", [("pkg/notify/notify.go", """	// probe the current offset
+	updated := w.nextOffset.Load() > offset
+
+	// release current barrier
+	w.barrier <- b
+
+	// already has a new value, return
+	if updated {
+		return nil
+	}
+""", """	// probe the current offset, release current barrier either way
+	if w.nextOffset.Load() > offset {
+		w.barrier <- b
+		return nil
+	}
+	w.barrier <- b
+""")]),
+ ("notify.Set: the fresh barrier installed by a deferred closure", [("pkg/notify/notify.go", """	// set the new offset
+	if w.nextOffset.Load() < nextOffset {
+		w.nextOffset.Store(nextOffset)
+	}
+
+	// close the current barrier, e.g. broadcasting update
+	close(b)
+
+	// create new barrier
+	w.barrier <- make(chan struct{})
+}""", """	// create new barrier on the way out
+	defer func() {
+		w.barrier <- make(chan struct{})
+	}()
+
+	// set the new offset
+	if w.nextOffset.Load() < nextOffset {
+		w.nextOffset.Store(nextOffset)
+	}
+
+	// close the current barrier, e.g. broadcasting update
+	close(b)
+}""")]),
+ ("blocking wrappers: positive form of the error tests", [("log_blocking.go", """	nextOffset, err := l.Log.Publish(messages)
+	if err != nil {
+		return OffsetInvalid, err
+	}
+
+	l.notify.Set(nextOffset)
+	return nextOffset, nil""", """	nextOffset, err := l.Log.Publish(messages)
+	if err == nil {
+		l.notify.Set(nextOffset)
+		return nextOffset, nil
+	}
+	return OffsetInvalid, err"""), ("log_blocking.go", """	if err := l.notify.Wait(ctx, offset); err != nil {
+		return OffsetInvalid, nil, err
+	}
+	return l.Consume(offset, maxCount)""", """	err := l.notify.Wait(ctx, offset)
+	if err == nil {
+		return l.Consume(offset, maxCount)
+	}
+	return OffsetInvalid, nil, err""")]),
+ ("Find: HasSuffix and TrimSuffix with an early continue", [("pkg/segment/segments.go", """		if offsetStr, ok := strings.CutSuffix(f.Name(), ".log"); ok {
+			offset, err := strconv.ParseInt(offsetStr, 10, 64)
+			if err != nil {
+				return nil, fmt.Errorf("find parse offset: %w", err)
+			}
+
+			segments = append(segments, New(dir, offset, autoSync))
+		}""", """		name := f.Name()
+		if !strings.HasSuffix(name, ".log") {
+			continue
+		}
+		offset, err := strconv.ParseInt(strings.TrimSuffix(name, ".log"), 10, 64)
+		if err != nil {
+			return nil, fmt.Errorf("find parse offset: %w", err)
+		}
+		segments = append(segments, New(dir, offset, autoSync))""")]),
+ ("Compact: one cut-off base time", [("compact.go", """	updatesBefore := time.Now().Add(-age)
+	if _, _, err := CompactUpdatesMultiOffsets(ctx, l, updatesBefore, boff); err != nil {
+		return err
+	}
+	deletesBefore := time.Now().Add(-age * 2)""", """	now := time.Now()
+	updatesBefore := now.Add(-age)
+	if _, _, err := CompactUpdatesMultiOffsets(ctx, l, updatesBefore, boff); err != nil {
+		return err
+	}
+	deletesBefore := now.Add(-2 * age)""")]),
+ ("readV2: body size in a local, size checks merged, trailer offset reused", [("pkg/message/format.go", """	// Validate sizes
+	if keySize < 0 || valueSize < 0 {
+		return -1, errInvalidHeader
+	}
+	if int(keySize)+int(valueSize) > maxMessageBodySize {
+		return -1, errInvalidHeader
+	}
+	position += v2HeaderSize
+""", """	// Validate sizes
+	bodySize := int(keySize) + int(valueSize)
+	if keySize < 0 || valueSize < 0 || maxMessageBodySize < bodySize {
+		return -1, errInvalidHeader
+	}
+	position += v2HeaderSize
+"""), ("pkg/message/format.go", """	payloadSize := headerPayloadSize + int(keySize) + int(valueSize) + trailerSize
+	payload := make([]byte, payloadSize)
+	copy(payload[:headerPayloadSize], headerBytes[4:])
+	if r.ra != nil {
+		_, err = r.ra.ReadAt(payload[headerPayloadSize:], position)
+	} else {
+		_, err = r.r.ReadAt(payload[headerPayloadSize:], position)
+	}""", """	payload := make([]byte, headerPayloadSize+bodySize+trailerSize)
+	copy(payload[:headerPayloadSize], headerBytes[4:])
+	if r.ra != nil {
+		_, err = r.ra.ReadAt(payload[headerPayloadSize:], position)
+	} else {
+		_, err = r.r.ReadAt(payload[headerPayloadSize:], position)
+	}"""), ("pkg/message/format.go", """	trailerOff := headerPayloadSize + int(keySize) + int(valueSize)
+	if !bytes.Equal(payload[trailerOff:], trailerMagicData) {
+		return -1, errBadTrailer
+	}""", """	if trailerOff := headerPayloadSize + bodySize; !bytes.Equal(payload[trailerOff:], trailerMagicData) {
+		return -1, errBadTrailer
+	}"""), ("pkg/message/format.go", """	return position + int64(int(keySize)+int(valueSize)+trailerSize), nil
+}
+
+func (r *Reader) Close() error {""", """	return position + int64(bodySize+trailerSize), nil
+}
+
+func (r *Reader) Close() error {""")]),
 ]
 
 def main():
